@@ -134,4 +134,198 @@ example : (clientLoop exDef 10 5 3 { seed := 5, lastTs := 3 } 0 [{ exVP "a" "v1"
 example : (clientLoop exDef 10 5 3 { seed := 5, lastTs := 3 } 0 [exVP "b" "v2" 60, { exVP "a" "v1" 50 with jwt := false }]).2.2 =
     .err "format" := by decide
 
+/-! ### seeds are never reused: a client notices a server reset -/
+
+/-- every seed in the system (server list, replica, responses in flight) was drawn before: it is at most the draw counter -/
+structure SeedsBounded (w : World) : Prop where
+  s : w.S.seed ≤ w.ctr
+  c : w.C.seed ≤ w.ctr
+  pend : ∀ p, w.pending = some p → p.seed ≤ w.ctr
+  del : ∀ p ∈ w.delayed, p.seed ≤ w.ctr
+
+theorem register_seed (d : Def) (s : Store) (now fresh : Nat) (vp : VP) :
+    (register d s now fresh vp).1.seed = s.seed ∨
+    ((register d s now fresh vp).1.seed = fresh ∧ s.seed = 0 ∧ (register d s now fresh vp).2 = .ok ()) := by
+  rcases register_cases d s now fresh vp with ⟨o, ho, _⟩ | ⟨subj, e, id, _, _, _, hreg⟩
+  · left; rw [ho]
+  · rw [hreg]
+    by_cases h : s.seed = 0
+    · right; exact ⟨by simp [addOk, Store.setValidated, h], h, rfl⟩
+    · left; simp [addOk, Store.setValidated, h]
+
+theorem clientLoop_seed_le (d : Def) (now seed ts : Nat) :
+    ∀ (resp : List VP) (c : Store) (ctr : Nat), c.seed ≤ ctr → seed ≤ ctr →
+      (clientLoop d now seed ts c ctr resp).1.seed ≤ (clientLoop d now seed ts c ctr resp).2.1 ∧
+      ctr ≤ (clientLoop d now seed ts c ctr resp).2.1 := by
+  intro resp
+  induction resp with
+  | nil => intro c ctr hc _; simp [clientLoop, hc]
+  | cons vp rest ih =>
+    intro c ctr hc hs
+    unfold clientLoop
+    by_cases hj : vp.jwt = false
+    · simp [hj, hc]
+    · have hj' : vp.jwt = true := by cases h : vp.jwt <;> simp_all
+      simp only [hj', Bool.true_eq_false, ↓reduceIte]
+      cases hi : vp.id with
+      | none => simp [hc]
+      | some id =>
+        cases hsg : vp.signer with
+        | none => simp [hc]
+        | some sm =>
+          obtain ⟨subj, m⟩ := sm
+          simp only []
+          by_cases hk : c.hasKey subj id = true
+          · simp only [hk, ↓reduceIte]; exact ih c ctr hc hs
+          · simp only [hk, Bool.false_eq_true, ↓reduceIte]
+            have hsd := add_seed_cases c now vp seed ts (ctr + 1)
+            rcases hadd : c.add now vp seed ts (ctr + 1) with ⟨c', r⟩
+            rw [hadd] at hsd
+            have hc' : c'.seed ≤ ctr + 1 := by
+              simp only at hsd
+              rcases hsd with h | h | h <;> omega
+            cases r with
+            | ok row =>
+              simp only []
+              generalize verify d c' now Side.client vp = v
+              have hstep : ∀ c'' : Store, c''.seed = c'.seed →
+                  (clientLoop d now seed ts c'' (ctr + 1) rest).1.seed ≤ (clientLoop d now seed ts c'' (ctr + 1) rest).2.1 ∧
+                  ctr ≤ (clientLoop d now seed ts c'' (ctr + 1) rest).2.1 := by
+                intro c'' h''
+                have := ih c'' (ctr + 1) (by omega) (by omega)
+                exact ⟨this.1, by omega⟩
+              cases v with
+              | ok u => cases u; exact hstep _ rfl
+              | err e => exact hstep _ rfl
+              | panic q => exact hstep _ rfl
+            | err e => simp only []; exact ⟨hc', by omega⟩
+            | panic q => simp only []; exact ⟨hc', by omega⟩
+
+theorem clientApply_seed_le (cfg : Cfg) (d : Def) (c : Store) (now ctr seed ts : Nat) (resp : List VP)
+    (hc : c.seed ≤ ctr) (hs : seed ≤ ctr) :
+    (clientApply cfg d c now ctr seed ts resp).1.seed ≤ (clientApply cfg d c now ctr seed ts resp).2.1 ∧
+    ctr ≤ (clientApply cfg d c now ctr seed ts resp).2.1 := by
+  unfold clientApply Store.wipeOnSeedChange
+  by_cases h : c.seed ≠ seed ∧ c.seed ≠ 0
+  · rw [if_pos h]
+    by_cases hr : cfg.restartOnWipe = true
+    · simp [hr, hs]
+    · simp only [hr, Bool.false_and, Bool.false_eq_true, ↓reduceIte]
+      exact clientLoop_seed_le d now seed ts resp _ ctr hs hs
+  · rw [if_neg h]
+    simp only [Bool.and_false, Bool.false_eq_true, ↓reduceIte]
+    exact clientLoop_seed_le d now seed ts resp c ctr hc hs
+
+theorem seedsBounded_step (cfg : Cfg) (d : Def) (w : World) (e : Ev) (h : SeedsBounded w) :
+    SeedsBounded (step cfg d w e).1 := by
+  cases e with
+  | tick n => exact ⟨h.s, h.c, h.pend, h.del⟩
+  | register vp =>
+    have hr := register_seed d w.S w.t (w.ctr + 1) vp
+    have hS : (step cfg d w (.register vp)).1 = { w with S := (register d w.S w.t (w.ctr + 1) vp).1, ctr := w.ctr + 1 } := rfl
+    rw [hS]
+    refine ⟨?_, Nat.le_succ_of_le h.c, fun p hp => Nat.le_succ_of_le (h.pend p hp), fun p hp => Nat.le_succ_of_le (h.del p hp)⟩
+    show (register d w.S w.t (w.ctr + 1) vp).1.seed ≤ w.ctr + 1
+    rcases hr with hr | ⟨hr, _, _⟩
+    · rw [hr]; exact Nat.le_succ_of_le h.s
+    · rw [hr]; exact Nat.le_refl _
+  | reset => exact ⟨Nat.zero_le _, h.c, h.pend, h.del⟩
+  | pollA =>
+    refine ⟨h.s, h.c, ?_, h.del⟩
+    intro p hp
+    simp only [step] at hp
+    cases hsf : cfg.serviceFirst <;> simp only [hsf, Bool.false_eq_true, ↓reduceIte, Option.some.injEq] at hp <;> subst hp
+    · exact Nat.zero_le _
+    · exact h.s
+  | pollB perm =>
+    cases hp : w.pending with
+    | none =>
+      have : (step cfg d w (.pollB perm)).1 = w := by simp [step, hp]
+      rw [this]; exact h
+    | some p =>
+      have hps := h.pend p hp
+      have hseed : (if cfg.serviceFirst then p.seed else w.S.seed) ≤ w.ctr := by split; exact hps; exact h.s
+      have hb := clientApply_seed_le cfg d w.C w.t w.ctr (if cfg.serviceFirst then p.seed else w.S.seed)
+        (if cfg.serviceFirst then p.ts else w.S.lastTs)
+        (perm ((if cfg.serviceFirst then w.S.rowsAfter p.after else p.rows).map (·.vp))) h.c hseed
+      simp only [step, hp]
+      refine ⟨Nat.le_trans h.s hb.2, hb.1, (by intro q hq; cases hq), fun q hq => Nat.le_trans (h.del q hq) hb.2⟩
+  | validate => exact ⟨h.s, h.c, h.pend, h.del⟩
+  | clientVerifier up => exact ⟨h.s, h.c, h.pend, h.del⟩
+  | restartServer => exact h
+  | restartClient => exact ⟨h.s, h.c, (by intro p hp; cases hp), (by intro p hp; cases hp)⟩
+  | dpollStart =>
+    refine ⟨h.s, h.c, h.pend, ?_⟩
+    intro p hp
+    simp only [step, List.mem_append, List.mem_singleton] at hp
+    rcases hp with hp | hp
+    · exact h.del p hp
+    · subst hp; exact h.s
+  | dpollFinish i perm =>
+    cases hp : w.delayed[i]? with
+    | none =>
+      have : (step cfg d w (.dpollFinish i perm)).1 = w := by simp [step, hp]
+      rw [this]; exact h
+    | some p =>
+      have hps := h.del p (List.mem_of_getElem? hp)
+      have hb := clientApply_seed_le cfg d w.C w.t w.ctr p.seed p.ts (perm (p.rows.map (·.vp))) h.c hps
+      simp only [step, hp]
+      exact ⟨Nat.le_trans h.s hb.2, hb.1, fun q hq => Nat.le_trans (h.pend q hq) hb.2,
+        fun q hq => Nat.le_trans (h.del q (List.mem_of_mem_eraseIdx hq)) hb.2⟩
+
+/-- **seeds_bounded.** Over ALL histories (registrations, resets, polls in both reads, overlapping polls, restarts, any map
+    order): no seed anywhere — server list, replica, responses in flight — is ahead of the draw counter, i.e. every seed
+    in the system was drawn by an earlier `uuid.NewString()` (or is still empty). -/
+theorem seeds_bounded (cfg : Cfg) (d : Def) (evs : List Ev) (t0 : Nat) : SeedsBounded (run cfg d { t := t0 } evs) :=
+  run_inv cfg d SeedsBounded (fun w e => seedsBounded_step cfg d w e) evs { t := t0 }
+    ⟨Nat.le_refl _, Nat.le_refl _, (by intro p hp; cases hp), (by intro p hp; cases hp)⟩
+
+/-- **reset_draws_unseen_seed.** After ANY history, a server that lost its list (`reset`) and accepts a registration
+    gets a seed that is not empty and differs from the seed of the list before the reset, from the replica's seed and
+    from the seed of every response still in flight: `Register` passes the empty seed (`fact_add_arguments`), `add`
+    draws a fresh one (`fact_seed_draw`). This is exactly what the seeded mutation C16-w8m1 (seed derived from the
+    service id) destroys. -/
+theorem reset_draws_unseen_seed (cfg : Cfg) (d : Def) (evs : List Ev) (t0 : Nat) (vp : VP)
+    (hacc : (step cfg d (step cfg d (run cfg d { t := t0 } evs) .reset).1 (.register vp)).2 = .ok ()) :
+    let w := run cfg d { t := t0 } evs
+    let w' := (step cfg d (step cfg d w .reset).1 (.register vp)).1
+    w'.S.seed ≠ 0 ∧ w'.S.seed ≠ w.S.seed ∧ w'.S.seed ≠ w'.C.seed ∧ w'.C = w.C ∧
+    (∀ p, w'.pending = some p → p.seed ≠ w'.S.seed) ∧ ∀ p ∈ w'.delayed, p.seed ≠ w'.S.seed := by
+  intro w w'
+  have hb : SeedsBounded w := seeds_bounded cfg d evs t0
+  have hS : w'.S = (register d {} w.t (w.ctr + 1) vp).1 := rfl
+  have hacc' : (register d {} w.t (w.ctr + 1) vp).2 = .ok () := hacc
+  have hseed : w'.S.seed = w.ctr + 1 := by
+    rw [hS]
+    rcases register_cases d {} w.t (w.ctr + 1) vp with ⟨o, ho, hne⟩ | ⟨subj, e, id, _, _, _, hreg⟩
+    · rw [ho] at hacc'; exact absurd hacc' hne
+    · rw [hreg]; simp [addOk, Store.setValidated, Store.prune]
+  have hC : w'.C = w.C := rfl
+  have hP : w'.pending = w.pending := rfl
+  have hD : w'.delayed = w.delayed := rfl
+  refine ⟨by omega, ?_, ?_, hC, ?_, ?_⟩
+  · have := hb.s; omega
+  · rw [hC]; have := hb.c; omega
+  · intro p hp; rw [hP] at hp; have := hb.pend p hp; omega
+  · intro p hp; rw [hD] at hp; have := hb.del p hp; omega
+
+/-- **reset_noticed_by_client** (end to end: history → reset → first registration → one poll). A client that holds a
+    replica (non-empty seed) and polls after the server lost its list and accepted a new registration ends that poll
+    with an EMPTY replica at timestamp 0 under the new seed, and its next `get` asks for everything after 0. -/
+theorem reset_noticed_by_client (d : Def) (evs : List Ev) (t0 : Nat) (vp : VP) (perm : List VP → List VP)
+    (hc : (run factCfg d { t := t0 } evs).C.seed ≠ 0)
+    (hacc : (step factCfg d (step factCfg d (run factCfg d { t := t0 } evs) .reset).1 (.register vp)).2 = .ok ()) :
+    let w' := (step factCfg d (step factCfg d (run factCfg d { t := t0 } evs) .reset).1 (.register vp)).1
+    (poll factCfg d w' perm).C.rows = [] ∧ (poll factCfg d w' perm).C.lastTs = 0 ∧
+    (poll factCfg d w' perm).C.seed = w'.S.seed ∧
+    ((step factCfg d (poll factCfg d w' perm) .pollA).1.pending.map (·.after)) = some 0 := by
+  intro w'
+  obtain ⟨_, _, h3, h4, _, _⟩ := reset_draws_unseen_seed factCfg d evs t0 vp hacc
+  exact reset_restarts d w' perm (fun h => h3 h.symm) (by rw [h4]; exact hc)
+
+/-- non-vacuity: a history with a poll, then reset + accepted registration -/
+example : (run factCfg exDef { t := 10 } [.register (exVP "a" "v1" 100), .pollA, .pollB id]).C.seed ≠ 0 ∧
+    (step factCfg exDef (step factCfg exDef (run factCfg exDef { t := 10 } [.register (exVP "a" "v1" 100), .pollA, .pollB id]) .reset).1
+      (.register (exVP "b" "v2" 110))).2 = .ok () := by decide
+
 end Nuts.C16.Props
